@@ -77,6 +77,19 @@ harness! {
 
 harness! {
     #[kani::unwind(12)]
+    fn q08_batch_invert_single_fp31() {
+        // the degenerate batch of one element still inverts it
+        let a: u8 = kani::any();
+        kani::assume(a >= 1 && a < 31);
+        let mut v = [mk31(a)];
+        batch_invert(&mut v);
+        assert!(rd31(v[0] * mk31(a)) == 1, "batch_invert agrees with invert for a single element");
+        kani::cover!(a > 1);
+    }
+}
+
+harness! {
+    #[kani::unwind(12)]
     fn x08_batch_invert_fp31() {
         // batch inversion agrees with element-wise inversion for every triple of non-zero elements
         let raw: [u8; 3] = kani::any();
